@@ -164,6 +164,67 @@ def judge_bbox(rng):
         if (b.x, b.y, b.x + b.w, b.y + b.h) != e: out.append(('bounding box = extrema of the polygon', e, {'d': poly_d(pts), 'bbox': list(b)}))
     return out
 
+def judge_bbox_history(rng):
+    """the reported box is that of the CURRENT geometry: ask, change the shape through the same object or a derived one, ask again"""
+    from picosvg.svg_transform import Affine2D
+    out = []
+    for _ in range(30):
+        pts = [(rng.randint(-9, 9), rng.randint(-9, 9)) for _ in range(rng.randint(3, 5))]
+        sp = SVGPath(d=poly_d(pts))
+        sp.bounding_box()
+        k = rng.randrange(4)
+        if k == 0:
+            dx, dy = rng.randint(1, 5), rng.randint(-5, -1)
+            q = sp.move(dx, dy); want = [(x + dx, y + dy) for x, y in pts]; what = f'move({dx},{dy})'
+        elif k == 1:
+            q = sp.apply_transform(Affine2D(2, 0, 0, 3, 1, -1)); want = [(2 * x + 1, 3 * y - 1) for x, y in pts]; what = 'apply_transform(scale(2,3) translate)'
+        elif k == 2:
+            sp.move(3, 4, inplace=True); q = sp; want = [(x + 3, y + 4) for x, y in pts]; what = 'move(3,4, inplace=True)'
+        else:
+            sp.update_path([('M', (0.0, 0.0)), ('L', (1.0, 2.0)), ('L', (-3.0, 1.0)), ('Z', ())], inplace=True); q = sp; want = [(0, 0), (1, 2), (-3, 1)]; what = 'update_path(...)'
+        b = q.bounding_box()
+        e = (min(p[0] for p in want), min(p[1] for p in want), max(p[0] for p in want), max(p[1] for p in want))
+        got = (b.x, b.y, b.x + b.w, b.y + b.h)
+        if max(abs(g - v) for g, v in zip(got, e)) > 1e-9:
+            out.append(('bounding box of the geometry as it is now (after ' + what + ')', e, {'d': poly_d(pts), 'after': what, 'bbox': got}))
+    # document level: bounding_box(), in-place edit, bounding_box()
+    for _ in range(6):
+        svg = SVG.fromstring('<svg xmlns="http://www.w3.org/2000/svg" viewBox="0 0 20 20"><path d="M1,1 L5,1 L5,4 Z"/><path d="M2,2 L9,3 L4,8 Z"/></svg>')
+        svg.bounding_box()
+        svg.round_floats(0, inplace=True)
+        for sh in svg.shapes(): sh.move(5, 5, inplace=True)
+        b = svg.bounding_box()
+        got = (b.x, b.y, b.x + b.w, b.y + b.h)
+        if max(abs(g - v) for g, v in zip(got, (6, 6, 14, 13))) > 1e-9:
+            out.append(('document bounding box follows in-place edits of its shapes', (6, 6, 14, 13), {'bbox': got})); break
+    return out
+
+def judge_cli(rng):
+    """the command line tool with --clip_to_viewbox clips the CONVERTED document: transformed / stroked / instanced shapes near the
+    border are judged on their final geometry"""
+    import subprocess, os as _os
+    import render
+    out = []
+    H = '<svg xmlns="http://www.w3.org/2000/svg" xmlns:xlink="http://www.w3.org/1999/xlink" viewBox="0 0 20 10">'
+    docs = [H + '<rect x="-30" y="2" width="6" height="5" fill="red" transform="translate(35,0)"/><rect x="2" y="2" width="5" height="5" fill="blue" transform="translate(0,-30)"/></svg>',
+            H + '<g transform="translate(-40,0)"><rect x="45" y="1" width="8" height="6" fill="green"/></g><line x1="2" y1="8" x2="18" y2="8" stroke="purple" stroke-width="6"/></svg>',
+            H + '<defs><rect id="r" x="-20" y="-20" width="6" height="6" fill="orange"/></defs><use xlink:href="#r" x="25" y="22"/><circle cx="19" cy="5" r="4" fill="red"/></svg>']
+    env = dict(_os.environ, PYTHONPATH='/repo/src', PYTHONHASHSEED='0')
+    for doc in docs:
+        p = subprocess.run(['/venv/bin/python', '-m', 'picosvg.picosvg', '--clip_to_viewbox'], input=doc.encode(), capture_output=True, env=env, timeout=120)
+        if p.returncode != 0: continue
+        res = p.stdout.decode()
+        # inside the viewBox the clipped conversion paints like the source; outside it paints nothing
+        r = render.compare_documents(doc, res, (0.2, 0.2, 19.6, 9.6), n=15)
+        if r is not None and len(r) > 1:
+            out.append(('CLI --clip_to_viewbox: inside the viewBox the result paints like the source', {'point': r[0], 'colour': r[1]}, {'colour': r[2], 'doc': doc, 'output': res[:1500]})); continue
+        empty = '<svg xmlns="http://www.w3.org/2000/svg" viewBox="0 0 20 10"/>'
+        for ext in ((-12, -12, 11.5, 34), (20.5, -12, 12, 34), (-12, -12, 44, 11.5), (-12, 10.5, 44, 12)):
+            r = render.compare_documents(empty, res, ext, n=9)
+            if r is not None and len(r) > 1:
+                out.append(('CLI --clip_to_viewbox: nothing is painted outside the viewBox', {'point': r[0]}, {'colour': r[2], 'doc': doc, 'output': res[:1500]})); break
+    return out
+
 def judge_rects(rng, n):
     out = []
     for _ in range(n):
@@ -180,7 +241,7 @@ def judge_rects(rng, n):
 def search(ctx, broken, disagreements):
     rng = ctx.rng
     found, n = [], 0
-    for law, exp, obs in judge_rects(rng, ctx.n(500, 5000)) + judge_bbox(rng):
+    for law, exp, obs in judge_rects(rng, ctx.n(500, 5000)) + judge_bbox(rng) + judge_bbox_history(rng) + judge_cli(rng):
         found.append({'law': law, 'input': jsonable(obs), 'expected_by_spec': jsonable(exp), 'observed': jsonable(obs)})
         if len(found) >= 4: break
     n += 600
